@@ -297,7 +297,10 @@ XSLTEngineImpl::process(
 
         bool            isOK = false;
 
-        while(child != 0 && isOK == false && theStylesheetURI.empty() == true)
+        // Use the first xml-stylesheet PI that has both an acceptable type and
+        // an href; a PI that is not applicable (for example, one for a CSS
+        // stylesheet) must not end the search.
+        while(child != 0 && (isOK == false || theStylesheetURI.empty() == true))
         {
             if(XalanNode::PROCESSING_INSTRUCTION_NODE == child->getNodeType())
             {
@@ -305,6 +308,10 @@ XSLTEngineImpl::process(
 
                 if(equals(nodeName, s_stylesheetNodeName))
                 {
+                    // Each PI is examined on its own...
+                    isOK = false;
+                    theStylesheetURI.clear();
+
                     StringTokenizer     tokenizer(child->getNodeValue(), s_piTokenizerString);
 
                     while(tokenizer.hasMoreTokens() == true && (isOK == false || theStylesheetURI.empty() == true))
@@ -3452,7 +3459,8 @@ XSLTEngineImpl::initialize(MemoryManager&      theManager)
 
     ::s_hrefString.swap(tmpString1);
 
-    ::s_piTokenizerString.reset( theManager, " \t=");
+    // (white space between pseudo-attributes includes line ends)
+    ::s_piTokenizerString.reset( theManager, " \t\r\n=");
 
     ::s_typeValueString1.reset( theManager, "text/xml");
 
